@@ -64,7 +64,7 @@ claim('C11', 'Proof, over ropes of literals and opaque tokens, that the real Fil
       'mappings / options of every kind (same, a>b, empty, >b, a>, flag, no-flag, name=json, name=text, whitespace variation, a "!" inside a password), that the real base '
       'Filter.normalize_config is idempotent and maps the comma-text form and the list form to the same result (0..3 sources, mq_log / exit_after / extra_metrics forms), and that the real '
       'normalize_config of VideoIn, ImageIn, VideoOut, ImageOut (1..2 entries, topic and options of each kind; text == list of strings == list of records) Recorder (output options, '
-      '0..2 rules), Util (parameterless transforms with topic lists, log) and Webvis (convenience output, host/port normal form, FILTER_* overrides unset) are idempotent with text form == structured form. MQTTOut, REST and the size/box transforms of Util are covered only by a BOUNDED native check on '
+      '0..2 rules), Util (parameterless transforms with topic lists, log) and Webvis (convenience output, host/port normal form, FILTER_* overrides unset or set) are idempotent with text form == structured form. MQTTOut, REST and the size/box transforms of Util are covered only by a BOUNDED native check on '
       'documented-grammar configurations.', '6-C11')
 NA['C06'] = ('liveness under fairness and bounded-time recovery across several processes: not expressible as pre/postconditions or invariants of one call; '
              'termination is not proved by this verifier (DESIGN.md section 7); its safety ingredients are proved under C02/C04/C05')
